@@ -199,6 +199,8 @@ func (e *Engine) execLookup(fc *fnCtx, b *ssa.BasicBlock, st *State, x *ssa.Look
 		dom = and("(not (= "+xv.T+" 0))", dom)
 		vs := e.sortOf(m.Elem())
 		v := Val{T: e.sc.define(fc.fn.Name()+"_"+x.Name(), vs, ite(dom, val, e.zero(m.Elem()))), S: vs, GoT: m.Elem()}
+		// a value read from a map is as well-formed as any value read from memory
+		e.loadFacts(st, v, m.Elem())
 		if x.CommaOk {
 			okv := Val{T: e.sc.define(fc.fn.Name()+"_"+x.Name()+"ok", "Bool", dom), S: "Bool"}
 			fc.regs[x] = Val{S: "Tuple", Tuple: []Val{v, okv}, GoT: x.Type()}
